@@ -21,7 +21,7 @@ PID = "C42"
 LEVEL = "exploration"
 RULE = ("all renderings (2 styles) of every 2-/3-leaf tree over & | juxtaposition with every placement of ! (exhaustive), plus "
         "Hypothesis trees (<=7 atoms, paren nesting <=2) over all 14 unary, 17 regex, ~c and naked-regex atoms with "
-        "! & | juxtaposition and redundant parentheses, rendered with varied whitespace/parenthesisation/quoting, each "
+        "! & | juxtaposition and redundant parentheses, rendered with varied whitespace (space, tab, CR, LF between tokens, after arguments and around the expression)/parenthesisation/quoting, each "
         "evaluated on 36 pool flows of all types + 2 case-specific flows; non-trivial = tree has >=2 different "
         "connectives or a parenthesised group; distinct by (tree shape, rendered text)")
 ASSUMPTIONS = [
@@ -207,6 +207,10 @@ def check_case(case, ctx):
 
     tree, sa, sb = case
     text, _, _ = rf.render(tree)
+    lead, trail = rf.edge_ws(tree)
+    text = lead + text + trail
+    if "\n" in text or "\r" in text:
+        ctx.cls("multi-line-or-trailing-newline")
     conn = rf.connectives(tree)
     shape = rf.shape(tree)
     jor = rf.juxt_under_or(tree)
